@@ -1,5 +1,6 @@
 """C22: theory solver verdicts depend only on the asserted literals (engine T)."""
 import copy
+import os
 
 from . import config as cfg
 from . import gen, hist
@@ -22,6 +23,8 @@ class C22(Check):
     def gen_case(self, seed, idx, tier):
         r = sub_rng(seed, self.pid, idx, 'p')
         prof = r.choice(self.profiles)
+        if os.environ.get('VERIF_PROFILES'):   # maintenance: focus a run on some logics (never set by a registered command)
+            prof = r.choice(os.environ['VERIF_PROFILES'].split(','))
         h = hist.gen_history(sub_rng(seed, self.pid, idx, 'hist'), prof, clausal=1.0, max_push=0, ncmds=(4, 10), bool_args=False, unsat_bias=0.0, final_check=False, p_check=0.0,
                              big=r.choice([0.05, 0.15, 0.4]), max_depth=2)
         asserts = [c['text'] for c in h['commands'] if c['k'] == 'assert']
@@ -32,15 +35,19 @@ class C22(Check):
         # reasons later, after further assertions (temporary backtrack as in conflict analysis)
         adopt_mode = ro.choice(['none', 'none', 'all', 'all', 'some'])
         p_reason = ro.choice([0.0, 0.05, 0.12]) if adopt_mode != 'none' else 0.0
+        # swarm: how often the trail is checked (a latent inconsistency is only seen by the complete check that follows the
+        # critical assertion before the trail changes again), how often completely, how positive the literals are
+        p_assert, p_complete, p_neg = ro.choice([(0.5, 0.55, 0.5), (0.4, 0.9, 0.5), (0.4, 0.9, 0.25), (0.45, 0.75, 0.1)])
+        p_bt = ro.choice([0.22, 0.12])
         for _ in range(nops):
             c = ro.random()
-            if c < 0.5 - p_reason:
-                ops.append(['assert', ro.randint(0, 1000), ro.random() < 0.5])
-            elif c < 0.5:
+            if c < p_assert - p_reason:
+                ops.append(['assert', ro.randint(0, 1000), ro.random() < p_neg])
+            elif c < p_assert:
                 ops.append(['reason', ro.randint(0, 1000)])
-            elif c < 0.78:
+            elif c < 1.0 - p_bt:
                 mask = 0 if adopt_mode == 'none' else ((1 << 30) - 1 if adopt_mode == 'all' else ro.getrandbits(30))
-                ops.append(['check', ro.random() < 0.55, mask])
+                ops.append(['check', ro.random() < p_complete, mask])
             else:
                 ops.append(['backtrack', ro.choice([1, 1, 1, 2, 3, 5])])
         opts = []
